@@ -1,5 +1,6 @@
 import Zc.Proofs.SurviveClock
 import Zc.Proofs.SurviveLive
+import Zc.Proofs.SurviveHandlers
 /-! # C15 — survival over the closed composite: every block kind, no residual-block hypothesis
 
 `C15_history_all_timers_partial` (`Props/C15.lean`) still assumed, by name: `BaseOK` (user `RecordUpdateListener`s, waking lookup
@@ -238,6 +239,53 @@ theorem C15_populated_instance (glue : TextGlue) (henum : NameTextSafe RespSpec.
       (fun _ : Nat => True) glue ⟨fun u _ pairs _ _ => ⟨u + 1, _, rfl, trivial⟩, fun u _ _ => ⟨u, _, rfl, trivial⟩⟩
       exPopulate 0 (State.init exEmpty) s out (C15_closed_init id 4500 (fun _ : Nat => True) 0) hmono hsafe hr
     exact ⟨s, out, rfl, hI, hev.1, hev.2.1, hev.2.2.1, hev.2.2.2.1, hev.2.2.2.2.1, hev.2.2.2.2.2⟩
+
+/-! ## Browser handlers: the model's callbacks are calls that return (review 2, finding 2)
+
+The composite emits what a browser fires as data (`COut.callback`); the handlers (`ServiceListener.add_service` …, or callables) are
+application code called from inside `datagram_received` with no containment (`Signal.fire`).  Named: `HandlersOK`. -/
+
+/-- **`HandlersOK` is what the callback outputs of the model stand for**: when the handlers return, the code's
+`async_update_records_complete` (handlers as a parameter, `Model/SurviveHandlers.completeE`) is exactly C04's `Browser.complete`
+that the composite runs. -/
+theorem C15_handlers_return_is_the_model {h : Handlers.Handler} (hok : Handlers.HandlersOK h) (b : Browser) :
+    Handlers.completeE h b = .ok (Browser.complete b) :=
+  Handlers.completeE_eq_complete hok b
+
+/-- **and when a handler raises the browser is wedged** (finding F-U2; not a theorem about the composite, about the code's
+`async_update_records_complete`): if the handlers raise for `Added(t, n)` while that event is pending, the call raises — out of
+`async_updates_complete`, `async_updates_from_response`, `datagram_received` — and, because `_pending_handlers.clear()` is skipped
+and nothing overwrites a pending `Added`, **every later call raises again**, whatever updates arrive in between. -/
+theorem C15_raising_handler_wedges_browser (lower : String → String) (possible : String → List String)
+    {h : Handlers.Handler} {t n : String} (hraise : ∃ e, h ⟨.added, t, n⟩ = .error e) {b : Browser}
+    (hp : Handlers.PendingAdded (n, t) b) :
+    (∃ e, Handlers.completeE h b = .error e) ∧
+    ∀ rounds : List (Cache × Ms × List (Rec × Option Rec)),
+      ∃ e, Handlers.completeE h (rounds.foldl (fun b r => Browser.updateRecords lower possible r.1 r.2.1 b r.2.2) b) = .error e :=
+  Handlers.raising_handler_wedges lower possible hraise hp
+
+/-- the hypothesis is satisfiable and the wedge is real: a handler that raises for one name only -/
+example : ∃ h : Handlers.Handler, ¬ Handlers.HandlersOK h ∧
+    Handlers.PendingAdded ("evil._b._tcp.local.", "_b._tcp.local.")
+      (({ types := ["_b._tcp.local."] } : Browser).enqueue .added "_b._tcp.local." "evil._b._tcp.local.") :=
+  ⟨fun cb => if cb.name = "evil._b._tcp.local." then .error .valueError else .ok (),
+   fun hok => by have := hok ⟨.added, "_b._tcp.local.", "evil._b._tcp.local."⟩; simp at this,
+   by simp [Handlers.PendingAdded, Browser.enqueue, pendingGet, pendingSet, enqueue_test_iff]⟩
+
+/-! ## The browsed types come from the API only (review 2, finding 3)
+
+`TypesSafe` of a scheduler's configuration is not enforced by the code (`ServiceBrowser.__init__` validates with `strict=False`:
+`C15_nonstrict_name_refuted`, finding F-R3).  But no datagram can put a type there: -/
+
+/-- **a datagram block leaves every scheduler's configuration (its browsed types) as it was**: whatever bytes arrive, each scheduler
+afterwards has the configuration of a scheduler before.  `TypesSafe` can only be broken by the application, at `browserStart`. -/
+theorem C15_browsed_types_only_from_api (lower : String → String) (possible : String → List String) (ettl : Nat)
+    (attrib : Question → Rec → Bool) (orc : Route.Oracle) {υ ω : Type} (U : UserL υ ω) (upd : Ms → List (Rec × Option Rec) → Nat → Bool)
+    (s s' : State (CS υ)) (data : Bytes) (addr : Addr) (port : Nat) (now : Ms) (draw : Nat) (out : List (Out (COut ω))) (tag : Tag)
+    (h : recv (down lower possible ettl attrib orc U upd) s data addr port now draw = .ok (s', out, tag)) :
+    ∀ cs' ∈ s'.down.scheds, ∃ cs ∈ s.down.scheds, cs'.1 = cs.1 :=
+  recv_frame (cfgs_frame lower possible ettl (Route.rest lower attrib orc (userBase U upd)))
+    (fun _ _ _ _ _ hi => ingest_cfgs lower possible ettl _ hi) h
 
 /-! ## The third clause over the closed composite -/
 
